@@ -51,6 +51,22 @@ flow main
   send Out3(x=list($c), y=list($e))
   match Never()
 """),
+    ("rich:numbers", """flow main
+  $best = float("inf")
+  $neg = -1e999
+  $nan = float("nan")
+  $big = 2 ** 70
+  $u = "na\u00efve \u2603 text"
+  $tiny = 1e-320
+  match E1()
+  if 3 < $best
+    send Out1(v=$best, w="{$neg}")
+  match E2()
+  send Out2(big=$big + 1, u=$u, t=$tiny)
+  match E3()
+  send Out3(neg=str($neg), nan=str($nan), best=$best)
+  match Never()
+"""),
     ("rich:regex", """flow main
   $r = regex("a.*")
   match E1()
@@ -237,6 +253,56 @@ API_PROGRAM2 = """flow main
 """
 
 
+# flows added while the conversation runs (AddFlowsAction is executed by the runtime, not by the state machine)
+RUNTIME_PROGRAM = "flow main\n" + "".join(
+    "  match Go()\n"
+    "  $flows = await AddFlowsAction(config=$code%d)\n"
+    "  send Loaded(flows=$flows)\n"
+    "  start added%d\n" % (n, n) for n in (1, 2, 3)) + "  match Never()\n"
+# (Colang strings cannot hold a line break: the texts of the new flows are put into main's variables, as the repository's test does)
+RUNTIME_CODE = {"code%d" % n: "flow added%d\n  send Added(n=%d)\n  match Again%d()\n  send AddedAgain(n=%d)\n" % (n, n, n, n) for n in (1, 2, 3)}
+RUNTIME_EVENTS = [{"type": "Go"}, {"type": "Again1"}, {"type": "Go"}, {"type": "Go"}, {"type": "Again3"}, {"type": "Again2"}]
+
+
+def runtime_cases():
+    """Live versus restored at the level of RuntimeV2_x.process_events (actions run by the runtime included): the same events
+    once with the State object handed on from call to call, once with the state saved and restored after call k."""
+    import asyncio
+    from nemoguardrails import LLMRails, RailsConfig
+    from nemoguardrails.colang.v2_x.runtime.serialization import json_to_state, state_to_json
+    from harness import doubles
+    doubles.register_embed()
+    cfg = RailsConfig.from_content(colang_content=RUNTIME_PROGRAM, yaml_content=doubles.MODELS_YAML + "colang_version: 2.x\n")
+
+    def summary(out):
+        return [[e.get("type")] + sorted("%s=%r" % (k, v) for k, v in e.items() if k in ("n", "flows")) for e in out
+                if e.get("type") in ("Added", "AddedAgain", "Loaded")]
+
+    async def drive(cut):
+        app = LLMRails(cfg, llm=doubles.ScriptedLLM(responder=lambda t, p_, l: "x", calls=[]))
+        state, outs = None, []
+        for i, ev in enumerate([None] + RUNTIME_EVENTS):
+            out, state = await app.runtime.process_events([] if ev is None else [dict(ev)], state=state, blocking=True)
+            outs.append([json.dumps(x) for x in summary(out)])
+            if i == 0:
+                state.main_flow_state.context.update(RUNTIME_CODE)
+            if i == cut:
+                state = json_to_state(state_to_json(state))
+        return outs
+
+    ref = asyncio.run(drive(-1))
+    out = []
+    for k in range(0, len(RUNTIME_EVENTS)):
+        got, err = [], None
+        try:
+            got = asyncio.run(drive(k))
+        except Exception as ex:
+            err = "continuation raised %s: %s" % (type(ex).__name__, str(ex)[:200])
+        out.append({"kind": "json", "origin": "runtime:addflows", "ref": ref[k + 1:], "got": got[k + 1:] if err is None else [], "ref_err": None, "err": err,
+                    "k": k, "events": [e["type"] for e in RUNTIME_EVENTS], "hist": []})
+    return out
+
+
 def llmrails_cases():
     return _llmrails_cases(API_PROGRAM, "api:counter", 4) + _llmrails_cases(API_PROGRAM2, "api:actions", 6)
 
@@ -327,6 +393,8 @@ def run(ctx):
         cases.append({"kind": "aged", "origin": ap["origin"], "ref": ap["ref"], "got": ap["got"], "ref_err": ap["ref_err"], "err": ap["err"],
                       "k": sum(1 for h in ap["hist"] if h[0] == 0), "events": ["%d/%d/%d" % tuple(h) for h in ap["hist"]], "hist": ap["hist"]})
     api_cases = llmrails_cases()
+    api_cases += runtime_cases()
+    srcs["runtime:addflows"] = RUNTIME_PROGRAM
     srcs["api:counter"] = API_PROGRAM
     srcs["api:actions"] = API_PROGRAM2
     cases += api_cases
